@@ -147,6 +147,12 @@ def wannier_gauge(d, name, der=0):
     return np.einsum("kab,kbc...,kdc->kad...", U, Xb, U.conj())
 
 
+def tabulator_safe(E):
+    """the tabulators average bands closer than degen_thresh=1e-4: only exact multiplets or gaps > 1e-3 are compared"""
+    g = np.diff(np.sort(np.asarray(E).ravel()))
+    return not np.any((g > 1e-9) & (g < 1e-3))
+
+
 def multiset_close(a, b, tol):
     a, b = np.sort(np.asarray(a).ravel()), np.sort(np.asarray(b).ravel())
     return a.shape == b.shape and float(np.abs(a - b).max()) <= tol
@@ -184,14 +190,18 @@ def run_double(case, seed):
         r = wb.evaluate_k(d, k=k, quantities=["energy", "band_gradients", "spin"], return_single_as_dict=True)
         E2 = np.array(r["energy"]).ravel()
         scale = max(1.0, np.abs(E0).max())
-        if E2.shape != (2 * nw,) or np.abs(np.sort(E2) - np.repeat(E0, 2)).max() > TOL * scale:
+        Eraw = np.array(data_k(d, k).E_K).ravel()        # untabulated energies of the doubled system
+        if Eraw.shape != (2 * nw,) or np.abs(np.sort(Eraw) - np.repeat(E0, 2)).max() > TOL * scale:
+            return {"ok": False, "key": "double_spin:spectrum",
+                    "detail": f"{case} k={kn}: doubled {np.sort(Eraw).tolist()} original {E0.tolist()}"}
+        if tabulator_safe(E0) and (E2.shape != (2 * nw,) or np.abs(np.sort(E2) - np.repeat(E0, 2)).max() > TOL * scale):
             return {"ok": False, "key": "double_spin:spectrum",
                     "detail": f"{case} k={kn}: doubled {np.sort(E2).tolist()} original {E0.tolist()}"}
         r0 = wb.evaluate_k(s, k=k, quantities=["energy", "band_gradients"], return_single_as_dict=True)
-        if np.abs(np.array(r0["energy"]).ravel() - E0).max() > TOL * scale:
+        if tabulator_safe(E0) and np.abs(np.array(r0["energy"]).ravel() - E0).max() > TOL * scale:
             return {"ok": False, "key": "reference:H_plain_vs_evaluate_k", "detail": f"{case} k={kn}"}
         gaps = np.diff(E0)
-        if len(gaps) == 0 or gaps.min() > 1e-6:
+        if len(gaps) == 0 or gaps.min() > 1e-3:
             V0 = np.array(r0["band_gradients"])
             V2 = np.array(r["band_gradients"])
             if np.abs(V2 - np.repeat(V0, 2, axis=0)).max() > 1e-8 * max(1.0, np.abs(V0).max()):
@@ -239,7 +249,7 @@ def run_union(case, seed):
         if not multiset_close(EK, ref, TOL * scale):
             return {"ok": False, "key": f"SystemSOC:{case['mode']}:spectrum_not_union:E_K",
                     "detail": f"{case} k={kn}: E_K {EK.tolist()} union {ref.tolist()}"}
-        if gsys is None:
+        if gsys is None and tabulator_safe(ref):
             E = np.array(wb.evaluate_k(s, k=k, quantities=["energy"], return_single_as_dict=True)["energy"]).ravel()
             if not multiset_close(E, ref, TOL * scale):
                 return {"ok": False, "key": f"SystemSOC:{case['mode']}:spectrum_not_union:evaluate_k",
@@ -321,7 +331,7 @@ def run_assembly(case, seed):
         systems[alpha] = s
     P = np.array(SOC.get_pauli_rotated(theta, phi))
     kmesh = ss.mp_kpoints(mp)
-    klist = KPTS if impulse else MP_K
+    klist = KPTS
     couples = (nspin == 2 and (not impulse or soc_kind[0] == "o")) or (nspin == 1 and abs(np.sin(theta)) > 1e-9)
     Hk = {}
     for kn in klist:
@@ -331,7 +341,26 @@ def run_assembly(case, seed):
         H0[::2, ::2] = ss.H_plain(up, k)
         H0[1::2, 1::2] = ss.H_plain(down, k)
         vdn = chk_dn.v_matrix[ik] if chk_dn is not None else chk_up.v_matrix[ik]
-        V, S = reference_soc_k(nw, nspin, data[ik], (ovl[ik] if ovl is not None else None), chk_up.v_matrix[ik], vdn, P)
+        on_mesh = impulse or kn in MP_K
+        if on_mesh:      # reference from the raw synthetic data (covers set_soc_R + set_soc_axis)
+            V, S = reference_soc_k(nw, nspin, data[ik], (ovl[ik] if ovl is not None else None), chk_up.v_matrix[ik], vdn, P)
+        # reference valid at every k: the stored spin-resolved R-space matrices, Fourier-summed here, assembled with sigma'
+        s1_ = systems[1.0]
+        eye = np.eye(nw, dtype=complex)
+        dk = {}
+        for a_, b_ in ((0, 0), (0, 1), (1, 1)):
+            if s1_.has_R_mat(f"dV_soc_wann_{a_}_{b_}"):
+                W = ss.fourier_plain(s1_.rvec.iRvec, s1_.get_R_mat(f"dV_soc_wann_{a_}_{b_}"), k)     # (nw,nw,3)
+                dk[a_, b_] = np.array([W[:, :, c] for c in range(3)])
+        O_lib = ss.fourier_plain(s1_.rvec.iRvec, s1_.get_R_mat("overlap_up_down"), k) if nspin == 2 else None
+        V2, S2 = reference_soc_k(nw, nspin, dk, O_lib, eye, eye, P)
+        if on_mesh:
+            e1, e2 = float(np.abs(V - V2).max()), float(np.abs(S - S2).max())
+            if max(e1, e2) > 1e-9:
+                return {"ok": False, "key": "SystemSOC.set_soc_R:R_matrices_vs_raw_data",
+                        "detail": f"{case} k={kn}: Fourier sums of dV_soc_wann_*/overlap_up_down differ from the raw data by {e1:.3g}/{e2:.3g}"}
+        else:
+            V, S = V2, S2
         for alpha in ALPHAS:
             s = systems[alpha]
             d = data_k(s, k)
@@ -378,7 +407,7 @@ def run_assembly(case, seed):
                     return {"ok": False, "key": f"SystemSOC.get_system_R:Ham_der{der}",
                             "detail": f"{case} k={kn} alpha_soc={alpha}: |dH/dk(get_system_R) - dH/dk(soc)| = {err:.3g}"}
             E = np.sort(np.linalg.eigvalsh(ref))
-            if len(E) < 2 or np.diff(E).min() > 1e-6:
+            if len(E) < 2 or np.diff(E).min() > 1e-3:
                 q = ["energy", "band_gradients", "spin"]
                 r1 = wb.evaluate_k(s, k=k, quantities=q, return_single_as_dict=True)
                 r2 = wb.evaluate_k(sR, k=k, quantities=q, return_single_as_dict=True)
